@@ -2137,6 +2137,11 @@ impl<'a> Searcher<'a> {
                         }
                         Op::Eeq => val.eq(&field_value.to_string()),
                         Op::Ene => val.ne(&field_value.to_string()),
+                        // text is ordered lexicographically
+                        Op::Gt => field_value.to_string() > val,
+                        Op::Gte => field_value.to_string() >= val,
+                        Op::Lt => field_value.to_string() < val,
+                        Op::Lte => field_value.to_string() <= val,
                         _ => false,
                     }
                 }
